@@ -32,7 +32,7 @@ static conv_t CONV[20]; static int NCONV;
 static int is_leaf(const dr_pi_dag_node * x) { return x->info.kind < dr_dag_node_kind_section || x->subgraphs_begin_offset == x->subgraphs_end_offset; }
 static const char * pi_str(const dr_pi_dag * G, long idx) { return (idx >= 0 && idx < G->S->n) ? G->S->C + G->S->I[idx] : NULL; }
 
-#define MAXN 256          /* nodes / edges of one DAG in this enumeration (a program has < 20 intervals) */
+#define MAXN 16384        /* nodes / edges of one DAG (enumerated programs: < 50; the large executions: a few thousand) */
 typedef struct { long work, crit, nodes[4], edges[EK_MAX], root_work, root_crit, root_nodes[4]; int ok; } totals_t;
 static const int EKMAP[EK_MAX] = { dr_dag_edge_kind_end, dr_dag_edge_kind_create, dr_dag_edge_kind_create_cont, dr_dag_edge_kind_wait_cont, dr_dag_edge_kind_other_cont };
 static const int NKMAP[4] = { dr_dag_node_kind_create_task, dr_dag_node_kind_wait_tasks, dr_dag_node_kind_other, dr_dag_node_kind_end_task };
@@ -226,12 +226,18 @@ static dr_pi_dag * roundtrip(const dr_pi_dag * G, const char * fn, const char * 
 /* every interval node in the file is an interval the simulator executed */
 static void content(const dr_pi_dag * G) {
   static const int KMAP[5] = { -1, dr_dag_node_kind_create_task, dr_dag_node_kind_other, dr_dag_node_kind_wait_tasks, dr_dag_node_kind_end_task };
-  const sched_t * s = CASE.s; int seen[MAXIV] = { 0 };
+  const sched_t * s = CASE.s;
+  static int * seen, * by_s, * by_e; static long c1, c2, c3;            /* interval (index + 1) by start line - 1000 / end line - 100 */
+  GROW(seen, c1, s->niv + 1); GROW(by_s, c2, s->nsc + 1); GROW(by_e, c3, s->niv + 1);
+  memset(seen, 0, sizeof(int) * (s->niv + 1)); memset(by_s, 0, sizeof(int) * (s->nsc + 1)); memset(by_e, 0, sizeof(int) * (s->niv + 1));
+  for (int j = 0; j < s->niv; j++) { by_s[s->iv[j].sline - 1000] = j + 1; by_e[s->iv[j].eline - 100] = j + 1; }
   for (long i = 0; i < G->n; i++) {
     const dr_pi_dag_node * x = &G->T[i];
     const char * sf = pi_str(G, x->info.start.pos.file_idx), * ef = pi_str(G, x->info.end.pos.file_idx);
     const iv_t * first = NULL, * last = NULL;
-    for (int j = 0; j < s->niv; j++) { if (s->iv[j].sline == x->info.start.pos.line) first = &s->iv[j]; if (s->iv[j].eline == x->info.end.pos.line) last = &s->iv[j]; }
+    long ls = x->info.start.pos.line - 1000, le = x->info.end.pos.line - 100;
+    if (ls >= 0 && ls < s->nsc && by_s[ls]) first = &s->iv[by_s[ls] - 1];
+    if (le >= 0 && le < s->niv && by_e[le]) last = &s->iv[by_e[le] - 1];
     if (!first || !last) { found("content:unknown-position", NULL, "node %ld (kind %d) starts at line %ld and ends at line %ld; no instrumentation call was made from there", i, x->info.kind, x->info.start.pos.line, x->info.end.pos.line); return; }
     if (strcmp(sf, FILEN[first->sline % CASE.nf]) || strcmp(ef, FILEN[last->eline % CASE.nf])) { found("content:file-name", NULL, "node %ld: files \"%s\" / \"%s\", the calls were made from \"%s\" / \"%s\"", i, sf, ef, FILEN[first->sline % CASE.nf], FILEN[last->eline % CASE.nf]); return; }
     if ((long)x->info.start.t != first->t0 - T0) { found("content:start-clock", NULL, "node %ld starts at %ld, the interval beginning at that call started at %ld", i, (long)x->info.start.t, first->t0 - T0); return; }
@@ -281,7 +287,7 @@ static size_t relay_collect(int which) {
 /* have the library write G (gen = 0: the recorded graph through dr_dump(); gen = 1: G itself through dr_gen_pi_dag)
    and read it back; the result must be unread_dag()ed with *fszp */
 static dr_pi_dag * through_file(dr_pi_dag * G, int gen, const char * which, const char * extra, size_t * fszp) {
-  int direct = CASE.W == 1;
+  int direct = CASE.W == 1 || CASE.p->large;       /* a large DAG does not fit a pipe buffer */
   dr_options o = GS.opts; char fn[270]; dr_pi_dag * R;
   o.dag_file_yes = 1;
   if (direct) { o.dag_file_prefix = SCRATCH; snprintf(fn, sizeof fn, "%s.dag", SCRATCH); }
